@@ -528,7 +528,7 @@ theorem send_invS {sn0 : U32} {k : Kcp} {L : List Content} (h : InvS sn0 k L) (b
       · rename_i h2
         rw [if_neg h2] at hp
         split
-        · exact ⟨h.nxt, h.buf, hq1⟩
+        · exact h
         · rename_i h3
           rw [if_neg h3] at hp
           split
